@@ -179,12 +179,18 @@ def run_observables(spec):
         tpy.temperatures = temps
         tpy.run(lang="py")
         _, Fpy, Spy, Cpy = tpy.thermal_properties
+        # a selection of bands (compiled route): the weighted sum over a subset of modes is a weighted sum all the same
+        nb = f.shape[1]
+        bi = sorted({0, nb // 2, nb - 1})
+        ph.run_thermal_properties(temperatures=temps, cutoff_frequency=1e-3 * float(np.abs(f).max()), band_indices=bi)
+        tpb = ph.get_thermal_properties_dict()
+        ph.run_thermal_properties(temperatures=temps, cutoff_frequency=1e-3 * float(np.abs(f).max()))
         fmax = float(np.abs(f).max()) + 1e-3
         ph.run_total_dos(sigma=fmax / 25, freq_min=-0.1 * fmax, freq_max=1.15 * fmax, freq_pitch=fmax / 60)
         dos = ph.get_total_dos_dict()["total_dos"]
         res.append({"wsum": w.sum(), "m2": (w[:, None] * f ** 2).sum() / w.sum(), "m1": (w[:, None] * np.abs(f)).sum() / w.sum(),
                     "F": tp["free_energy"], "S": tp["entropy"], "Cv": tp["heat_capacity"], "dos": dos,
-                    "F_py": Fpy, "S_py": Spy, "Cv_py": Cpy, "nq": len(w),
+                    "F_py": Fpy, "S_py": Spy, "Cv_py": Cpy, "F_bands": tpb["free_energy"], "S_bands": tpb["entropy"], "Cv_bands": tpb["heat_capacity"], "nq": len(w),
                     "mesh": np.array(ph.mesh.mesh_numbers)})
     a, b = res
     ntot = int(np.prod(a["mesh"]))
@@ -193,7 +199,7 @@ def run_observables(spec):
     if a["wsum"] != ntot or b["wsum"] != ntot:
         return Out(ok=False, msg="weights sum %s / %s, grid has %d points" % (a["wsum"], b["wsum"], ntot))
     worst = 0.0
-    for k in ("m2", "m1", "F", "S", "Cv", "F_py", "S_py", "Cv_py", "dos"):
+    for k in ("m2", "m1", "F", "S", "Cv", "F_py", "S_py", "Cv_py", "F_bands", "S_bands", "Cv_bands", "dos"):
         x, y = np.asarray(a[k], dtype=float), np.asarray(b[k], dtype=float)
         if np.isnan(x).any() or np.isnan(y).any():
             if np.array_equal(np.isnan(x), np.isnan(y)):
